@@ -634,6 +634,7 @@ package graphql
 //@ func isValidInputValue
 //@   props C12
 //@   nosafety
+//@   orderfree
 //@   opt invoke.ParseValue=pure
 //@   loop 5 invariant sortedflag(valueMapFieldNames)
 //@   loop 6 invariant sortedflag(fieldNames)
@@ -643,6 +644,7 @@ package graphql
 //@ func isValidLiteralValue
 //@   props C12
 //@   nosafety
+//@   orderfree
 //@   opt invoke.ParseLiteral=pure
 //@   loop 1 ordered
 //@   loop 3 ordered
@@ -657,6 +659,7 @@ package graphql
 //@   assigns nothing
 
 //@ func after:introspection.go:TypeType.AddFieldConfig("enumValues"
+//@   orderfree[C12]
 //@   props C10 C07
 //@   nosafety
 //@   assigns nothing
@@ -664,6 +667,7 @@ package graphql
 //@   loop 1 invariant fresh(values)
 
 //@ func after:introspection.go:TypeType.AddFieldConfig("inputFields"
+//@   orderfree[C12]
 //@   props C10 C07 C12
 //@   nosafety
 //@   assigns nothing
@@ -673,6 +677,7 @@ package graphql
 //@   loop[C12] 2 invariant sortedflag(fieldNames) && fresh(fields)
 
 //@ func after:introspection.go:TypeType.AddFieldConfig("fields"
+//@   orderfree[C12]
 //@   props C10 C07 C12
 //@   nosafety
 //@   assigns nothing
@@ -690,6 +695,7 @@ package graphql
 //@   assigns nothing
 
 //@ func after:introspection.go:"A list of all types supported by this server."
+//@   orderfree[C12]
 //@   props C10 C07 C12
 //@   nosafety
 //@   assigns nothing
